@@ -98,17 +98,22 @@ def make_handler_closure_setup(meth):
         try:
             f = it.getattr_(sess.server, meth)
             n0 = len(it.ctx.vcs)
+            it.ctx.muted = True
             try:
                 it.await_(it.call(f, [sess.conn, ""], {}))
             except PyRaise:
                 raise PathEnd("handler raised")
+            finally:
+                it.ctx.muted = False
             del it.ctx.vcs[n0:]
         finally:
             sps.apply_hook = old_hook
         if not captured:
             raise PathEnd("no listener started on this path")
         handler = captured[0]
+        it.ctx.muted = True
         sess.on_suspend(it, "later: a peer connects to the passive port")
+        it.ctx.muted = False
         del it.ctx.vcs[n0:]
         r, w = Reader("data"), Writer("data")
         was_done = sess.conn.done_term("data_connection")
